@@ -116,25 +116,29 @@ class FrequencyDomainSolution(CircuitSolution):
     def __post_init__(self):
         self.w = np.array(frequency_components(self.circuit, self.w_max))
         self._solutions = np.array([ComplexSolution(circuit=self.circuit, solver=self.solver, w=w, peak_values=True) for w in self.w])
-        if not self.one_sided:
-            self.w = np.concatenate((-self.w[-1:0:-1], self.w))
-            self._solutions = 1/2*np.concatenate((np.conj(self._solutions[-1:0:-1]), self._solutions))
+
+    def _series(self, values: np.ndarray) -> FrequencyDomainSeries:
+        if self.one_sided:
+            return np.array(self.w), values
+        ac = slice(1, None) if len(self.w) > 0 and self.w[0] == 0 else slice(0, None)
+        w = np.concatenate((-self.w[ac][::-1], self.w))
+        return w, np.concatenate((np.conj(values[ac][::-1])/2, values[:len(self.w)-len(self.w[ac])], values[ac]/2))
 
     def get_voltage(self, component_id: str) -> FrequencyDomainSeries:
         voltages = np.array([solution.get_voltage(component_id) for solution in self._solutions])
-        return np.array(self.w), voltages
+        return self._series(voltages)
 
     def get_current(self, component_id: str) -> FrequencyDomainSeries:
         currents = np.array([solution.get_current(component_id) for solution in self._solutions])
-        return np.array(self.w), currents
+        return self._series(currents)
 
     def get_potential(self, node_id: str) -> FrequencyDomainSeries:
         potentials = np.array([solution.get_potential(node_id) for solution in self._solutions])
-        return np.array(self.w), potentials
+        return self._series(potentials)
 
     def get_power(self, component_id: str) -> FrequencyDomainSeries:
         power = np.array([solution.get_power(component_id) for solution in self._solutions])
-        return np.array(self.w), power
+        return self._series(power)
 
 @dataclass
 class TransientSolution(CircuitSolution):
